@@ -40,3 +40,21 @@ pub fn run(args: &[&str]) -> String {
         }
     }
 }
+
+/// `ghwreg <max id> <min:max:bin,...>`: GhwSignalTracker::register_bit_vec sequence (hook); prints the
+/// signal ref of each request and the slice table.
+pub fn run_reg(args: &[&str]) -> String {
+    use wellen::verif::verif_register_bit_vecs;
+    let max_id = args[0].parse::<u32>().unwrap();
+    let reqs: Vec<(u32, u32, bool)> = split(args[1], ',')
+        .iter()
+        .map(|s| {
+            let f: Vec<&str> = s.split(':').collect();
+            (f[0].parse::<u32>().unwrap(), f[1].parse::<u32>().unwrap(), f[2] == "1")
+        })
+        .collect();
+    let (refs, table) = verif_register_bit_vecs(max_id, &reqs);
+    let r: Vec<String> = refs.iter().map(|x| x.to_string()).collect();
+    let t: Vec<String> = table.iter().map(|(r, m, l, s)| format!("{}:{}:{}:{}", r, m, l, s)).collect();
+    format!("refs={} aliases={}", r.join(","), if t.is_empty() { "-".to_string() } else { t.join(",") })
+}
